@@ -894,12 +894,12 @@ def tspat_fn(text, features):
     arm = re.sub(r"let\s+\(\s*(\w+)\s*,\s*(\w+)\s*\)\s*=\s*&([\w\.]+\[\d+\])\s*;", r"let \1 = &\3.0; let \2 = &\3.1;", arm)
     arm = re.sub(r"Atom\s*\{\s*name\s*:\s*([\w\.\(\)]+)\s*,\s*\}", r"Atom { name: \1 }", arm)
     def loop(mm):
-        a_, b_, xs, ys = mm.group(1), mm.group(2), mm.group(3), mm.group(4)
-        return ("let zn_ = zip_count(%s.len(), %s.len() - 1);\n          for z_ in 0..zn_\n"
-                "            invariant zn_ == zip_len(%s@.len() as int, %s@.len() - 1), %s@.len() == %s@.len() + 1, st0 == old(env).st@,\n"
-                "              tuple_struct_match(*%s, detached_value, semantics.id, st0) == all_match_off(%s@, %s@, 1, z_ as int, semantics.id, env.st@),\n"
-                "          {\n            let %s = &%s[z_]; let %s = &%s[1 + z_];" % (xs, ys, xs, ys, ys, xs, ps, xs, ys, a_, xs, b_, ys))
-    arm, n = re.subn(r"for\s+\(\s*(\w+)\s*,\s*(\w+)\s*\)\s+in\s+([\w\.]+)\.iter\(\)\.zip\(\s*([\w\.]+)\.iter\(\)\.skip\(1\)\s*\)\s*\{", loop, arm)
+        a_, b_, xs, ys, sk = mm.group(1), mm.group(2), mm.group(3), mm.group(4), mm.group(5) or "0"     # elements skipped: whatever the code says
+        return ("let zn_ = zip_count(%s.len(), %s.len() - %s);\n          for z_ in 0..zn_\n"
+                "            invariant zn_ == zip_len(%s@.len() as int, %s@.len() - %s), %s@.len() == %s@.len() + 1, st0 == old(env).st@,\n"
+                "              tuple_struct_match(*%s, detached_value, semantics.id, st0) == all_match_off(%s@, %s@, %s, z_ as int, semantics.id, env.st@),\n"
+                "          {\n            let %s = &%s[z_]; let %s = &%s[%s + z_];" % (xs, ys, sk, xs, ys, sk, ys, xs, ps, xs, ys, sk, a_, xs, b_, ys, sk))
+    arm, n = re.subn(r"for\s+\(\s*(\w+)\s*,\s*(\w+)\s*\)\s+in\s+([\w\.]+)\.iter\(\)\.zip\(\s*([\w\.]+)\.iter\(\)(?:\.skip\((\d+)\))?\s*\)\s*\{", loop, arm)
     if n != 1 or re.search(r"\b(iter|zip|skip|borrow)\b", arm):
         raise AnchorLost("pattern_matches_value_with_semantics: the tuple-struct arm is outside the transcription rules")
     return ("fn tuple_struct_arm(%s: &PatternTupleStruct, detached_value: Value, env: &mut Environment, p: &Interpreter, semantics: PatternMatchSemantics) -> (res: Result<bool, MechError>)\n"
